@@ -72,6 +72,9 @@ static void make_files(void) {
     crystal_text(a, sizeof a, "F"); snprintf(t, sizeof t, "%s#S 2 H\n#UCELL 5 5\n#L x\n14 1 0 0 0\n#EOF\n", a); wfile(9, t);
     crystal_text(a, sizeof a, "Si"); snprintf(t, sizeof t, "%s#EOF\n", a); wfile(10, t);
     crystal_text(a, sizeof a, "Aa"); crystal_text(b, sizeof b, "B"); snprintf(t, sizeof t, "%s%s#EOF\n", a, b); wfile(11, t);   /* new crystal first, possible duplicate second */
+    { char c[2000]; crystal_text(a, sizeof a, "Ab"); crystal_text(b, sizeof b, "Ac"); crystal_text(c, sizeof c, "Ab");
+      snprintf(t, sizeof t, "%s%s%s#EOF\n", a, b, c); wfile(12, t);          /* the same name twice in one file, another crystal in between */
+      snprintf(t, sizeof t, "%s%s#EOF\n", a, c); wfile(13, t); }                /* ... and adjacent */
 }
 
 static char **orig; static int norig;
